@@ -39,6 +39,9 @@ enum DealerSendTransaction {
 struct DealerSocketOutgoingProcessor {
   core_handle: usize,
   pending_queue: Arc<TokioMutex<VecDeque<FrameBatch>>>,
+  /// True while this task holds a message it has taken off the queue and not yet delivered
+  /// or put back (read and written under the queue lock).
+  queued_message_in_flight: Arc<std::sync::atomic::AtomicBool>,
   outgoing_orchestrator: Arc<OutgoingMessageOrchestrator>,
   queue_activity_notifier: Arc<Notify>,
   peer_availability_notifier: Arc<Notify>,
@@ -74,6 +77,10 @@ impl DealerSocketOutgoingProcessor {
           let mut queue_guard = self.pending_queue.lock().await;
           if !queue_guard.is_empty() && self.outgoing_orchestrator.has_connections() {
             current_message_to_send_option = queue_guard.pop_front();
+            self.queued_message_in_flight.store(
+              current_message_to_send_option.is_some(),
+              std::sync::atomic::Ordering::Release,
+            );
           }
         }
       }
@@ -86,13 +93,23 @@ impl DealerSocketOutgoingProcessor {
         );
 
         match self.outgoing_orchestrator.route_message(zmtp_frames_for_logical_message, false).await {
-          Ok(()) => {}
+          Ok(()) => {
+            let queue_guard = self.pending_queue.lock().await;
+            self.queued_message_in_flight.store(false, std::sync::atomic::Ordering::Release);
+            // Keep draining: senders queue up behind whatever is still pending.
+            if !queue_guard.is_empty() {
+              self.queue_activity_notifier.notify_one();
+            }
+          }
           Err((returned, _)) => {
             tracing::debug!(
               "[DealerProc {}] route_message failed (all peers full or no peers). Re-queuing.",
               self.core_handle
             );
-            self.pending_queue.lock().await.push_front(returned);
+            let mut queue_guard = self.pending_queue.lock().await;
+            queue_guard.push_front(returned);
+            self.queued_message_in_flight.store(false, std::sync::atomic::Ordering::Release);
+            drop(queue_guard);
             self.queue_activity_notifier.notify_one();
           }
         }
@@ -119,6 +136,7 @@ pub(crate) struct DealerSocket {
   frame_recv_buffer: ParkingMutex<Option<VecDeque<Msg>>>,
   pipe_read_to_endpoint_uri: ParkingLotRwLock<HashMap<usize, String>>,
   pending_outgoing_queue: Arc<TokioMutex<VecDeque<FrameBatch>>>,
+  queued_message_in_flight: Arc<std::sync::atomic::AtomicBool>,
   outgoing_queue_activity_notifier: Arc<Notify>,
   peer_availability_notifier: Arc<Notify>,
   processor_task_handle: TokioMutex<Option<JoinHandle<()>>>,
@@ -130,6 +148,7 @@ pub(crate) struct DealerSocket {
 impl DealerSocket {
   pub fn new(core: Arc<SocketCore>) -> Self {
     let pending_queue_arc = Arc::new(TokioMutex::new(VecDeque::new()));
+    let in_flight_arc = Arc::new(std::sync::atomic::AtomicBool::new(false));
     let orchestrator_arc = Arc::new(OutgoingMessageOrchestrator::new());
     let queue_notifier_arc = Arc::new(Notify::new());
     let peer_notifier_arc = Arc::new(Notify::new());
@@ -138,6 +157,7 @@ impl DealerSocket {
     let processor = DealerSocketOutgoingProcessor {
       core_handle: core.handle,
       pending_queue: pending_queue_arc.clone(),
+      queued_message_in_flight: in_flight_arc.clone(),
       outgoing_orchestrator: orchestrator_arc.clone(),
       queue_activity_notifier: queue_notifier_arc.clone(),
       peer_availability_notifier: peer_notifier_arc.clone(),
@@ -154,6 +174,7 @@ impl DealerSocket {
       frame_recv_buffer: ParkingMutex::new(None),
       pipe_read_to_endpoint_uri: ParkingLotRwLock::new(HashMap::new()),
       pending_outgoing_queue: pending_queue_arc,
+      queued_message_in_flight: in_flight_arc,
       outgoing_queue_activity_notifier: queue_notifier_arc,
       peer_availability_notifier: peer_notifier_arc,
       processor_task_handle: TokioMutex::new(Some(processor_jh)),
@@ -376,6 +397,20 @@ impl ISocket for DealerSocket {
       return Err((msg, ZmqError::ResourceLimitReached));
     }
     drop(guard);
+    // Never overtake messages that were accepted earlier and still wait in the pending queue
+    // (or are in the hands of the queue processor): take the asynchronous path behind them.
+    let older_messages_pending = match self.pending_outgoing_queue.try_lock() {
+      Ok(queue_guard) => {
+        !queue_guard.is_empty()
+          || self
+            .queued_message_in_flight
+            .load(std::sync::atomic::Ordering::Acquire)
+      }
+      Err(_) => true,
+    };
+    if older_messages_pending {
+      return Err((msg, ZmqError::ResourceLimitReached));
+    }
     let mut fb = FrameBatch::new();
     fb.push(msg);
     let wire_frames = self.prepare_full_multipart_send_sequence(fb);
@@ -613,6 +648,21 @@ impl DealerSocket {
         core_s_read.options.sndhwm.max(1),
       )
     };
+
+    // Messages accepted earlier may still wait in the pending queue (or be in the hands of the
+    // queue processor): a new message must queue up behind them, never overtake them.
+    let older_messages_pending = {
+      let queue_guard = self.pending_outgoing_queue.lock().await;
+      !queue_guard.is_empty()
+        || self
+          .queued_message_in_flight
+          .load(std::sync::atomic::Ordering::Acquire)
+    };
+    if older_messages_pending {
+      return self
+        .queue_message_or_error(zmtp_wire_frames, global_sndhwm, global_sndtimeo)
+        .await;
+    }
 
     match self.outgoing_orchestrator.route_message(zmtp_wire_frames, false).await {
       Ok(()) => Ok(()),
